@@ -308,6 +308,35 @@ func genLong[T comparable](c *explore.Chooser, d *dom[T], maxLong int) []T {
 	return s
 }
 
+// genLongAt: the same family at a few LARGER sizes (around the powers of two and Go's own thresholds), with the
+// repetition at five position pairs instead of all of them
+func genLongAt[T comparable](c *explore.Chooser, d *dom[T], sizes []int) []T {
+	n := sizes[c.Choose(len(sizes))]
+	order := c.Choose(3)
+	dup := c.Choose(6)
+	s := make([]T, n)
+	for k := range s {
+		v := k
+		switch order {
+		case 1:
+			v = n - 1 - k
+		case 2:
+			if k%2 == 0 {
+				v = k / 2
+			} else {
+				v = n - 1 - k/2
+			}
+		}
+		s[k] = d.wide(v)
+	}
+	pairs := [][2]int{{0, n - 1}, {n / 2, n/2 + 1}, {0, 1}, {n - 2, n - 1}, {1, n / 2}}
+	if dup > 0 {
+		p := pairs[dup-1]
+		s[p[1]] = s[p[0]]
+	}
+	return s
+}
+
 func sweepUnary[T comparable](d *dom[T], maxLen int) explore.Stats {
 	return sweepUnaryGen(d, func(c *explore.Chooser) []T { return genSlice(c, d, maxLen) })
 }
@@ -755,6 +784,15 @@ func main() {
 	st.Add(sweepUnaryGen(strs, func(c *explore.Chooser) []string { return genLong(c, strs, maxLong) }))
 	st.Add(sweepSortGen(ints, func(c *explore.Chooser) []int { return genLong(c, ints, maxLong) }))
 	st.Add(sweepSortGen(strs, func(c *explore.Chooser) []string { return genLong(c, strs, maxLong) }))
+	bigSizes := []int{31, 32, 33, 49, 50, 51, 63, 64, 65}
+	if maxLong > 20 {
+		bigSizes = []int{127, 128, 129, 255, 256, 257, 1023, 1025}
+	}
+	st.Add(sweepUnaryGen(ints, func(c *explore.Chooser) []int { return genLongAt(c, ints, bigSizes) }))
+	st.Add(sweepUnaryGen(strs, func(c *explore.Chooser) []string { return genLongAt(c, strs, bigSizes) }))
+	st.Add(sweepSortGen(ints, func(c *explore.Chooser) []int { return genLongAt(c, ints, bigSizes) }))
+	st.Add(sweepSortGen(strs, func(c *explore.Chooser) []string { return genLongAt(c, strs, bigSizes) }))
+	rep.Extra["larger_sizes"] = bigSizes
 	st.Add(sweepBinaryLong(ints, maxLong+14))
 	st.Add(sweepBinaryLong(strs, maxLong+14))
 	st.Add(sweepNestedLong(ints, maxChunks))
